@@ -91,6 +91,10 @@ func (s *metricSchemaStore) genFieldID(id metric.ID, f field.Meta, limits *model
 	s.lock.Lock()
 	defer s.lock.Unlock()
 
+	// check memory store again under write lock, other goroutine maybe put the schema of this metric
+	if memSchema := s.getSchemaFromMemWithoutLock(id); memSchema != nil {
+		schema = memSchema
+	}
 	if schema == nil {
 		// create new schema
 		schema = &metric.Schema{}
@@ -124,6 +128,10 @@ func (s *metricSchemaStore) genTagKeyID(id metric.ID, tagKey []byte, limits *mod
 	s.lock.Lock()
 	defer s.lock.Unlock()
 
+	// check memory store again under write lock, other goroutine maybe put the schema of this metric
+	if memSchema := s.getSchemaFromMemWithoutLock(id); memSchema != nil {
+		schema = memSchema
+	}
 	if schema == nil {
 		// create new schema
 		schema = &metric.Schema{}
@@ -164,6 +172,20 @@ func (s *metricSchemaStore) getSchemaFromKV(id metric.ID) (schema *metric.Schema
 		return nil, err
 	}
 	return schema, nil
+}
+
+// getSchemaFromMemWithoutLock gets schema from mem store, invoker must hold the lock.
+func (s *metricSchemaStore) getSchemaFromMemWithoutLock(id metric.ID) *metric.Schema {
+	key := uint32(id)
+	if schema, ok := s.mutable.Get(key); ok && schema != nil {
+		return schema
+	}
+	if s.immutable != nil {
+		if schema, ok := s.immutable.Get(key); ok && schema != nil {
+			return schema
+		}
+	}
+	return nil
 }
 
 // getSchemaFromMem gets schema from mem store.
